@@ -456,6 +456,18 @@ qb_log_from_external_source(const char *function,
 	va_end(ap);
 }
 
+
+/*
+ * The call-site sections of a program may hold unused, zero-filled slots.
+ * A call site in use has a format; line number 0 is a line number like any
+ * other (qb_log_from_external_source()).
+ */
+static inline int32_t
+_cs_in_use(const struct qb_log_callsite *cs)
+{
+	return (cs->lineno > 0 || cs->format != NULL);
+}
+
 static void
 qb_log_callsites_dump_sect(struct callsite_section *sect)
 {
@@ -463,7 +475,7 @@ qb_log_callsites_dump_sect(struct callsite_section *sect)
 	printf(" start %p - stop %p\n", sect->start, sect->stop);
 	printf("filename    lineno targets         tags\n");
 	for (cs = sect->start; cs < sect->stop; cs++) {
-		if (cs->lineno > 0) {
+		if (_cs_in_use(cs)) {
 #ifndef S_SPLINT_S
 			printf("%12s %6" PRIu32 " %16" PRIu32 " %16u\n",
 			       cs->filename, cs->lineno, cs->targets,
@@ -531,7 +543,7 @@ qb_log_callsites_register(struct qb_log_callsite *_start,
 	pthread_rwlock_unlock(&_listlock);
 	if (_custom_filter_fn) {
 		for (cs = sect->start; cs < sect->stop; cs++) {
-			if (cs->lineno > 0) {
+			if (_cs_in_use(cs)) {
 				_custom_filter_fn(cs);
 			}
 		}
@@ -687,7 +699,7 @@ _log_filter_apply(struct callsite_section *sect,
 	struct qb_log_callsite *cs;
 
 	for (cs = sect->start; cs < sect->stop; cs++) {
-		if (cs->lineno > 0) {
+		if (_cs_in_use(cs)) {
 			_log_filter_apply_to_cs(cs, t, c, type, text, regex,
 					    high_priority, low_priority);
 		}
@@ -850,7 +862,7 @@ qb_log_filter_fn_set(qb_log_filter_fn fn)
 	qb_log_thread_quiesce();
 	qb_list_for_each_entry(sect, &callsite_sections, list) {
 		for (cs = sect->start; cs < sect->stop; cs++) {
-			if (cs->lineno > 0) {
+			if (_cs_in_use(cs)) {
 				_custom_filter_fn(cs);
 			}
 		}
